@@ -27,7 +27,7 @@ for name in names:
     evp = os.path.join(ROOT, "evidence", f"{prop}.json")
     saved = open(evp).read() if os.path.exists(evp) else None
     try:
-        chk = subprocess.run(["./check", prop, "--no-bounded"] if "--with-bounded" not in os.environ.get("SEED_FLAGS", "") else ["./check", prop],
+        chk = subprocess.run(["./check", prop] if "--no-bounded" not in os.environ.get("SEED_FLAGS", "") else ["./check", prop, "--no-bounded"],
                              cwd=ROOT, capture_output=True, text=True)
     finally:
         subprocess.run(["git", "-C", "/repo", "checkout", "--", "."])
@@ -35,7 +35,7 @@ for name in names:
             open(evp, "w").write(saved)
     lines = [l for l in chk.stdout.splitlines() if l.startswith(("VIOLATION", "UNDECIDED", prop + ":", "ENGINE", "CRASH", "BOUNDED"))]
     verdict = {0: "missed", 1: "detected", 2: "undecided (exit 2, not silent)", 3: "checker error"}.get(chk.returncode, str(chk.returncode))
-    meta["check"] = {"cmd": f"./check {prop} --no-bounded", "exit": chk.returncode, "verdict": verdict, "lines": lines[:6] + lines[-2:]}
+    meta["check"] = {"cmd": f"./check {prop}", "exit": chk.returncode, "verdict": verdict, "lines": lines[:6] + lines[-2:]}
     meta["detected"] = chk.returncode == 1
     json.dump(meta, open(meta_p, "w"), indent=1)
     summary[name] = verdict
